@@ -19,7 +19,7 @@ MANIFEST = {
             "ALL values of their width by a GF(2) bit-affine abstract interpretation. Right level because byte-exactness "
             "per data-model kind is a property of the shape of ~50 tiny functions, not of sampled values.",
     "note": "Trusted: serde's Serialize impls (which method they call), std byte/str primitives, rustc's MIR. 64-bit host only.",
-    "technique": "static analysis: path-sensitive MIR term evaluation + table agreement + bit-affine (GF(2)) abstract interpretation",
+    "technique": "static analysis: path-sensitive MIR term evaluation + wire-format table agreement + bit-affine (GF(2)) abstract interpretation + semantic summaries of the compound-serializer plumbing",
 }
 SER_TRAIT = "serde_core::ser::Serializer"
 COMPOUND = {
